@@ -4,14 +4,19 @@ import json, glob, os, re
 V = os.path.dirname(os.path.dirname(os.path.abspath(__file__)))
 k = json.load(open(V + "/known_findings.json"))
 out = []
+_ms = [json.load(open(d + "/meta.json")) for d in glob.glob(V + "/seeded/*") if os.path.isdir(d)]
+_out = sum(1 for m in _ms if "assessment" in m)
+_sib = sum(1 for m in _ms if "by C" in str(m.get("check_result_quick")) and "assessment" not in m)
+_hist = sum(1 for m in _ms if "history" in m and "assessment" not in m and "by C" not in str(m.get("check_result_quick")))
+STATS = "%d in four waves: %d caught at once, %d after strengthening the check as described in their history line, %d caught by a sibling property's check, %d judged outside the statement and deliberately not asserted" % (len(_ms), len(_ms) - _out - _sib - _hist, _hist, _sib, _out)
 out.append("Repaired defects and open findings (from known_findings.json; one `fix:` commit per root cause in /repo):\n")
 out.append("| property | finding | status | commit | what |\n|---|---|---|---|---|")
 for e in sorted(k, key=lambda e: e["property"]):
     out.append("| %s | %s | %s | %s | %s |" % (e["property"], e["id"], e["status"], e.get("commit", "-"), e.get("what", "").replace("|", "/")[:230]))
 out.append("")
-out.append("Seeded changes written by independent sub-agents from the property text alone (kept under seeded/; each confirmed here: patch applies to a fresh worktree, builds, whole suite passes, demonstration passes without and fails with it), and the verdict of the QUICK tier of the property's check run against the patched tree:\n")
+out.append("Seeded changes written by independent sub-agents from the property text alone (" + STATS + "; kept under seeded/; each confirmed here: patch applies to a fresh worktree, builds, whole suite passes, demonstration passes without and fails with it), and the verdict of the QUICK tier of the property's check run against the patched tree:\n")
 out.append("| seeded change | what it needs to manifest | quick tier | clauses |\n|---|---|---|---|")
-for d in sorted(glob.glob(V + "/seeded/*")):
+for d in sorted(x for x in glob.glob(V + "/seeded/*") if os.path.isdir(x)):
     m = json.load(open(d + "/meta.json"))
     r = m.get("check_result_quick", "?")
     if "history" in m:
@@ -20,7 +25,7 @@ for d in sorted(glob.glob(V + "/seeded/*")):
         r = "not asserted (outside the statement)"
     out.append("| %s | %s | %s | %s |" % (os.path.basename(d), m.get("needs", "")[:170].replace("|", "/").replace("\n", " "), r, ", ".join(m.get("check_clauses", [])[:3])))
 out.append("")
-for d in sorted(glob.glob(V + "/seeded/*")):
+for d in sorted(x for x in glob.glob(V + "/seeded/*") if os.path.isdir(x)):
     m = json.load(open(d + "/meta.json"))
     if "history" in m:
         out.append("* %s: %s" % (os.path.basename(d), m["history"]))
